@@ -7,6 +7,7 @@ import (
 	"errors"
 	"fmt"
 	"io"
+	"math"
 	"os"
 	"path/filepath"
 	"sort"
@@ -281,6 +282,7 @@ func runC03(t *mon.T, raw json.RawMessage) {
 			return bufio.NewReaderSize(bytes.NewReader(file), 16+int(d.Seed&63)), func() {}
 		}},
 		{"stutter reader ((0,nil) calls, data+EOF)", func() (io.Reader, func()) { return &lab.StutterReader{B: file}, func() {} }},
+		{"stuttering seeker ((0,nil) reads, no ReadByte)", func() (io.Reader, func()) { return &lab.StutterSeeker{R: bytes.NewReader(file)}, func() {} }},
 		{"seeker, data+EOF", func() (io.Reader, func()) { return lab.EOFSeeker{R: bytes.NewReader(file)}, func() {} }},
 		{"bytes.Buffer (ByteReader, no Seek)", func() (io.Reader, func()) { return bytes.NewBuffer(append([]byte{}, file...)), func() {} }},
 		{"Reader.DataReader", func() (io.Reader, func()) {
@@ -467,7 +469,7 @@ func genC03(g *mon.G) {
 			d.ZeroEOF = r.Intn(5) == 0
 		}
 		if r.Intn(5) == 0 {
-			d.MaxCid = uint64([]int{36, 40, 60, 100}[r.Intn(4)])
+			d.MaxCid = []uint64{36, 40, 60, 100, 1 << 63, math.MaxUint64}[r.Intn(6)] // the last two: "no limit"
 		}
 		g.Emit(d)
 	}
